@@ -4,6 +4,7 @@ import (
 	"context"
 	"fmt"
 	"sort"
+	"strings"
 	"time"
 
 	"github.com/protolambda/zrnt/eth2/beacon"
@@ -28,7 +29,7 @@ func init() {
 		Rule: "transitions sampled along simulator chains (blocks carrying every operation kind in every fork, empty-slot advances over epoch boundaries and fork upgrades); for each sampled transition with N context polls: the undisturbed run must equal the reference, and for EVERY k in 1..N the same transition on a fresh copy " +
 			"with a context cancelled from the k-th poll on must return an error; for every execution-enabled block EVERY engine call x {invalid, error} must make the transition return an error; the payload root, versioned hashes and parent beacon root shown to the engine are compared with the reference. " +
 			"Poll sites reached are compared with a go/parser scan of ctx.Err() calls in the transition packages. A case is one injected fault; non-trivial: all; distinct by (transition, fault)",
-		Assumptions: append(append([]string{}, chainAssume...), "the counting context reports the caller of Err(); cancellation is sticky", "an unreached poll site not on the committed list of structurally unreachable sites makes the run inconclusive"),
+		Assumptions:  append(append([]string{}, chainAssume...), "the counting context reports the caller of Err(); cancellation is sticky", "an unreached poll site not on the committed list of structurally unreachable sites makes the run inconclusive"),
 		Batches:      func(tier string) int { return 16 },
 		ChildTimeout: func(string) time.Duration { return 40 * time.Minute },
 		Run:          runC18,
@@ -59,6 +60,13 @@ func runC18(b *fw.B) {
 		if quick {
 			sc.Epochs = min(sc.Epochs, 8)
 		}
+		if (b.Batch+k)%8 == 2 {
+			// a phase0-only chain with epochs in which nobody attests and nothing else happens: blocks without operations
+			sc.ForkEpochs = [4]uint64{ff, ff, ff, ff}
+			sc.POps, sc.PDeposits = 0, 0
+			sc.Participation = []float64{1, 0, 0.7, 0}
+			sc.MergeDelay = 0
+		}
 		if (b.Batch+k)%8 == 5 {
 			// a phase0-only chain rich in operations: there the per-operation polls are the last ones of the block transition
 			sc.ForkEpochs = [4]uint64{ff, ff, ff, ff}
@@ -73,6 +81,7 @@ func runC18(b *fw.B) {
 		viol := func(sig, what string) {
 			b.Violate(sig, what+" — scenario "+sc.String(), map[string]any{"scenario": sc.String()})
 		}
+		bareTaken := 0
 		// pending: pre-state copies taken before the step
 		var preZ *beacon.StandardUpgradeableBeaconState
 		var preEpc *common.EpochsContext
@@ -86,6 +95,38 @@ func runC18(b *fw.B) {
 			beforeBlock: func(c *sim.Chain, built *sim.Built) bool {
 				chain = c
 				takePre(c)
+				// Is the engine asked at all? Judged before the chain applies the block (a block the chain stops at is never seen by afterStep),
+				// and without result validation: the state-root comparison must not be what exposes a payload the engine never saw.
+				blk := &built.Signed.Message
+				enabled := blk.Fork >= refspec.Bellatrix && (built.Ops["merge_transition_block"] > 0 ||
+					(c.Ref.Fork >= refspec.Bellatrix && c.Sp.IsMergeTransitionComplete(c.Ref)))
+				if enabled && (built.Ops["merge_transition_block"] > 0 || b.Rng.Float64() < 0.15) {
+					spec := *c.ZSpec
+					eng := &sim.ScriptedEngine{Spec: &spec}
+					spec.ExecutionEngine = eng
+					env, _, derr := sim.DecodeBlock(&spec, blk.Fork, built.Bytes, common.ComputeForkDigest(common.Version(c.Sp.ForkVersions[blk.Fork]), common.Root(c.Ref.GenesisValidatorsRoot)))
+					if derr == nil && preZ != nil {
+						var err error
+						if !b.NoPanic("undisturbed/panic", func() { err = common.StateTransition(context.Background(), &spec, preEpc, preZ, env, false) }) {
+							return true
+						}
+						if err == nil {
+							b.Inc("execution_enabled_blocks_checked_for_an_engine_call")
+							b.CountIf(built.Ops["merge_transition_block"] > 0, "merge_transition_blocks_checked_for_an_engine_call")
+							shown := 0
+							for _, call := range eng.Calls {
+								if strings.HasSuffix(call.Site, "NotifyNewPayload") {
+									shown++
+								}
+							}
+							if shown != 1 {
+								viol("engine-args/payload-shown-times", fmt.Sprintf("block at slot %d (%s, execution enabled per the specification): the transition reports success with the engine's verdict on the payload asked %d times, not once", blk.Slot, refspec.ForkNames[blk.Fork], shown))
+								return true
+							}
+						}
+						takePre(c) // the copy was consumed
+					}
+				}
 				return false
 			},
 			afterStep: func(c *sim.Chain, where string, isBlock bool, built *sim.Built) bool {
@@ -96,8 +137,20 @@ func runC18(b *fw.B) {
 				}
 				upgraded := sim.ZrntFork(preZ) != c.Ref.Fork
 				boundary := c.Ref.Slot%c.Sp.SLOTS_PER_EPOCH == 0
-				interesting := upgraded || (isBlock && len(built.Ops) >= 4) || (boundary && !isBlock)
-				if !(interesting && b.Rng.Float64() < 0.5) && b.Rng.Float64() >= sampleP {
+				// blocks without any operation are always taken: there the polls of the fixed block steps are the last ones
+				bare := isBlock && len(built.Signed.Message.Body.Attestations)+len(built.Signed.Message.Body.Deposits)+len(built.Signed.Message.Body.VoluntaryExits)+
+					len(built.Signed.Message.Body.ProposerSlashings)+len(built.Signed.Message.Body.AttesterSlashings) == 0
+				if isBlock && built.Ops["merge_transition_block"] > 0 {
+					bare = true // always taken too: the one block on which execution becomes enabled
+					b.Inc("merge_transition_blocks_taken")
+				} else if bare && bareTaken < 6 {
+					bareTaken++
+					b.Inc("blocks_without_operations_taken_" + refspec.ForkNames[built.Signed.Message.Fork])
+				} else {
+					bare = false
+				}
+				interesting := bare || upgraded || (isBlock && len(built.Ops) >= 4) || (boundary && !isBlock)
+				if !bare && !(interesting && b.Rng.Float64() < 0.5) && b.Rng.Float64() >= sampleP {
 					return true
 				}
 				target := c.Ref.Slot
